@@ -306,10 +306,28 @@ type E[S any] struct {
 
 // Listing checks hseq.New[S] and the lookups by name against the expected unfolding.
 func Listing[S any](c *Ctx, want []E[S]) {
+	// the sequence New returns belongs to the caller: it is scribbled on (reversed in place, one entry overwritten,
+	// appended into) and the type is unfolded again - the second unfolding must be as good as the first
+	n0 := len(c.R.Viols)
+	first := listing(c, want)
+	if len(c.R.Viols) > n0 || len(first) == 0 {
+		return
+	}
+	for i, j := 0, len(first)-1; i < j; i, j = i+1, j-1 {
+		first[i], first[j] = first[j], first[i]
+	}
+	first[0].ID, first[0].Name, first[0].RootOffs = 99, "scribbled", 4096
+	_ = append(first[:1], first[0])
+	if again := listing(c, want); len(c.R.Viols) > n0 && len(again) > 0 {
+		c.R.Viols[len(c.R.Viols)-1].Msg += "\n(this was the second unfolding of the type, after the caller had modified the sequence returned by the first one)"
+	}
+}
+
+func listing[S any](c *Ctx, want []E[S]) hseq.Seq[S] {
 	var seq hseq.Seq[S]
 	if p := catch(func() { seq = hseq.New[S]() }); p != nil {
 		c.Viol("new-panic", "hseq.New panicked: %v", short(p))
-		return
+		return nil
 	}
 	c.R.Evaluations++
 	desc := func(s hseq.Seq[S]) string {
@@ -321,18 +339,18 @@ func Listing[S any](c *Ctx, want []E[S]) {
 	}
 	if len(seq) != len(want) {
 		c.Viol("listing-length", "unfolding has %d entries, want %d (%s)", len(seq), len(want), desc(seq))
-		return
+		return seq
 	}
 	var zs S
 	for i, w := range want {
 		t := seq[i]
 		if t.ID != i {
 			c.Viol("listing-id", "entry %d has ID %d (%s)", i, t.ID, desc(seq))
-			return
+			return seq
 		}
 		if t.Name != w.Name || t.FieldKey() != w.Key || t.Type != w.Type || t.Anonymous != w.Anonymous {
 			c.Viol("listing-entry", "entry %d is %s key %s type %v anonymous=%v, want %s key %s type %v anonymous=%v (%s)", i, t.Name, t.FieldKey(), t.Type, t.Anonymous, w.Name, w.Key, w.Type, w.Anonymous, desc(seq))
-			return
+			return seq
 		}
 		pure := w.Type
 		if pure.Kind() == reflect.Ptr {
@@ -340,13 +358,13 @@ func Listing[S any](c *Ctx, want []E[S]) {
 		}
 		if t.PureType != pure {
 			c.Viol("listing-puretype", "entry %d (%s) has PureType %v, want %v", i, t.Name, t.PureType, pure)
-			return
+			return seq
 		}
 		if !w.BehindPtr {
 			real := uintptr(w.Addr(&zs)) - uintptr(unsafe.Pointer(&zs))
 			if t.RootOffs+t.Offset != real {
 				c.Viol("listing-offset", "entry %d (%s): RootOffs+Offset = %d+%d, the field's real offset is %d", i, t.Name, t.RootOffs, t.Offset, real)
-				return
+				return seq
 			}
 		}
 	}
@@ -364,11 +382,11 @@ func Listing[S any](c *Ctx, want []E[S]) {
 		var got hseq.Type[S]
 		if p := catch(func() { got = hseq.ForName(seq, k) }); p != nil || got.ID != first[k] {
 			c.Viol("forname", "ForName(%q) = entry %d (panic %v), want the first match %d", k, got.ID, p, first[k])
-			return
+			return seq
 		}
 		if g, ok := hseq.ForNameMaybe(seq, k); !ok || g.ID != first[k] {
 			c.Viol("fornamemaybe", "ForNameMaybe(%q) = entry %d, %v; want %d, true", k, g.ID, ok, first[k])
-			return
+			return seq
 		}
 	}
 	for _, k := range []string{"", "nope", "Zz9", strings.ToLower(want[0].Key) + "_", want[0].Key + ",opt"} {
@@ -379,15 +397,15 @@ func Listing[S any](c *Ctx, want []E[S]) {
 		p := catch(func() { hseq.ForName(seq, k) })
 		if p == nil {
 			c.Viol("forname-absent", "ForName(%q) returned although no field has that name", k)
-			return
+			return seq
 		}
 		if _, isErr := p.(error); !isErr {
 			c.Viol("forname-absent", "ForName(%q) panicked with %T, want an error value", k, p)
-			return
+			return seq
 		}
 		if g, ok := hseq.ForNameMaybe(seq, k); ok {
 			c.Viol("fornamemaybe-absent", "ForNameMaybe(%q) = entry %d, true; want absence", k, g.ID)
-			return
+			return seq
 		}
 	}
 	// selection by names keeps the requested order and the original IDs: all permutations of up to 3 keys
@@ -432,7 +450,7 @@ func Listing[S any](c *Ctx, want []E[S]) {
 	for i, id := range ids {
 		if id != i {
 			c.Viol("fmap", "FMap: function result %d came from entry %d", i, id)
-			return
+			return seq
 		}
 	}
 	for n := 1; n <= 9 && n <= len(seq); n++ {
@@ -442,10 +460,11 @@ func Listing[S any](c *Ctx, want []E[S]) {
 		for i := range got {
 			if got[i] != sub[i].ID*10+i {
 				c.Viol("fmapn", "FMap%d: function %d received entry %d, want entry %d", n, got[i]%10, got[i]/10, sub[i].ID)
-				return
+				return seq
 			}
 		}
 	}
+	return seq
 }
 
 // fmapN calls hseq.FMapN with functions that tag the entry they receive with their own position.
